@@ -57,12 +57,29 @@ def worker(args):
         I = Interp(L, cs)
         I.spec_builtins = {"fold", "implies", "old", "pre", "events", "same_object", "final", "byte_at", "forall", "maybe", "has_own", "is_xml", "md5", "sha256", "aes_ecb_enc", "aes_ecb_dec", "aes_cbc_enc", "aes_cbc_dec", "pkcs7", "xor_bytes"}
         ex = Explorer()
+        import signal
+
+        class _Budget(Exception):
+            pass
+
+        def _alarm(signum, frame):
+            raise _Budget()
+        budget = int(os.environ.get("PYVC_TARGET_BUDGET_S", "0") or 0) or (2400 if want_smt2 else 600)
+        signal.signal(signal.SIGALRM, _alarm)
+        signal.alarm(budget)
         try:
             paths = ex.run(lambda p: cs.verify_path(I, c, p))
         except Unsupported as e:
+            signal.alarm(0)
             out["undecided"] = f"outside the supported subset: {e}"
             out["secs"] = time.time() - t0
             return out
+        except _Budget:
+            out["undecided"] = f"path exploration exceeded the budget of {budget} s for one function (no verdict)"
+            out["secs"] = time.time() - t0
+            return out
+        finally:
+            signal.alarm(0)
         out["paths"] = len(paths)
         asm = set()
         for p in paths:
